@@ -104,25 +104,33 @@ inline std::string cell(double x) {
   snprintf(buf, sizeof buf, "{\"k\":\"s\",\"s\":%lld,\"f\":\"ok\",\"v\":[]}", (long long)std::llround(s));
   return buf;
 }
-inline std::string dump(const int &v) { return cell(v); }
-inline std::string dump(const long &v) { return cell((double)v); }
-inline std::string dump(const long long &v) { return cell((double)v); }
-inline std::string dump(const unsigned int &v) { return cell(v); }
-inline std::string dump(const float &v) { return cell(v); }
-inline std::string dump(const double &v) { return cell(v); }
+// C18: with VP_TEXT set, scalar cells also carry the exact text of the value ("r")
+inline bool want_text() { static int w = -1; if (w < 0) w = std::getenv("VP_TEXT") ? 1 : 0; return w == 1; }
+inline std::string with_text(const std::string &c, const char *fmt, double d, long long i, bool is_int) {
+  if (!want_text()) return c;
+  char buf[64];
+  if (is_int) snprintf(buf, sizeof buf, "%lld", i); else snprintf(buf, sizeof buf, fmt, d);
+  return c.substr(0, c.size() - 1) + ",\"r\":\"" + buf + "\"}";
+}
+inline std::string dump(const int &v) { return with_text(cell(v), "", 0, v, true); }
+inline std::string dump(const long &v) { return with_text(cell((double)v), "", 0, v, true); }
+inline std::string dump(const long long &v) { return with_text(cell((double)v), "", 0, v, true); }
+inline std::string dump(const unsigned int &v) { return with_text(cell(v), "", 0, v, true); }
+inline std::string dump(const float &v) { return with_text(cell(v), "%.9g", v, 0, false); }
+inline std::string dump(const double &v) { return with_text(cell(v), "%.17g", v, 0, false); }
 inline std::string dump(const bool &v) {
   // a bool read from pattern-filled storage may hold any byte
   unsigned char raw;
   std::memcpy(&raw, &v, 1);
-  return cell(raw <= 1 ? raw : 170);
+  return with_text(cell(raw <= 1 ? raw : 170), "", 0, raw <= 1 ? raw : 170, true);
 }
 inline std::string jstr(const std::string &s) {
   std::string r = "\"";
   for (unsigned char c : s) {
     char b[8];
     if (c == '"' || c == '\\') { r += '\\'; r += (char)c; }
-    else if (c < 0x20 || c >= 0x7f) { snprintf(b, sizeof b, "\\u%04x", c); r += b; }
-    else r += (char)c;
+    else if (c < 0x20 || c == 0x7f) { snprintf(b, sizeof b, "\\u%04x", c); r += b; }
+    else r += (char)c;   // UTF-8 bytes pass through unchanged
   }
   return r + "\"";
 }
